@@ -80,12 +80,12 @@ def classify(prop, ens_names, enforce):
 def run_harness(meta, prop_id, keep=False):
     """returns a result dict"""
     name = meta['name']
-    wd = os.path.join(WORK, prop_id, name)
+    wd = os.path.join(WORK, prop_id, name + ('.case%d' % meta['_case'] if meta.get('_case') is not None else ''))
     shutil.rmtree(wd, ignore_errors=True)
     os.makedirs(wd)
     res = dict(harness=name, status='error', obligations=0, discharged=0, failed=[], named_ok=[], notes=[],
                solver_s=0.0, total_s=0.0, bounded=meta.get('bounded'), enforce=meta.get('enforce'),
-               replace=meta.get('replace', []), tu=meta.get('tu'))
+               replace=meta.get('replace', []), tu=meta.get('tu'), case=meta.get('_case'))
     t0 = time.time()
     try:
         ex = X.extract(meta, meta['path'], wd)
@@ -197,12 +197,12 @@ def run_harness(meta, prop_id, keep=False):
         return res
     res['obligations'] = len(results)
     by_class = {}
-    canaries = [0, 0]
+    reach = {}
     for p in results:
         cls, disp = classify(p, ex['ens_names'], meta.get('enforce'))
         if cls == 'canary':
-            canaries[0] += 1
-            if p['status'] != 'SUCCESS': canaries[1] += 1
+            nm = p.get('description', 'CANARY')
+            reach[nm] = reach.get(nm, False) or (p['status'] != 'SUCCESS')
             res['obligations'] -= 1
             continue
         by_class[cls] = by_class.get(cls, 0) + 1
@@ -215,9 +215,12 @@ def run_harness(meta, prop_id, keep=False):
                                       status=p['status'], loc=p.get('sourceLocation', {})))
     res['by_class'] = by_class
     res['ens_names'] = ex['ens_names']
-    res['canaries'] = canaries
-    if canaries[0] == 0 or canaries[0] != canaries[1]:
-        res['notes'].append('vacuity guard: %d of %d reachability canaries reachable (harness end unreachable: contradictory requires/assume?)' % (canaries[1], canaries[0]))
+    res['reach'] = reach
+    # in case mode the REACH points are aggregated over the cases (merge_cases); the end of the
+    # harness (CANARY) must be reachable in every run
+    must = [k for k in reach if k == 'CANARY' or not meta.get('_case_mode')]
+    if 'CANARY' not in reach or any(not reach[k] for k in must):
+        res['notes'].append('vacuity guard: unreachable: %s (harness end / premise unreachable: contradictory requires/assume?)' % ([k for k in must if not reach[k]] or 'no canary'))
         res['status'] = 'error'
         res['total_s'] = time.time() - t0
         return res
@@ -255,6 +258,48 @@ def run_harness(meta, prop_id, keep=False):
     res['workdir'] = wd
     res['total_s'] = round(time.time() - t0, 2)
     return res
+
+def merge_cases(results):
+    """a harness run as N cases (a partition of its input domain by -DVERIF_CASE=k) is one result:
+    every case must pass; a REACH point must be reachable in at least one case"""
+    out = []; groups = {}
+    for r in results:
+        if r.get('case') is None:
+            out.append(r)
+        else:
+            groups.setdefault(r['harness'], []).append(r)
+    for h, rs in groups.items():
+        rs.sort(key=lambda r: r['case'])
+        m = dict(rs[0])
+        m['obligations'] = sum(r['obligations'] for r in rs)
+        m['discharged'] = sum(r['discharged'] for r in rs)
+        m['solver_s'] = round(sum(r['solver_s'] for r in rs), 2)
+        m['total_s'] = round(max(r['total_s'] for r in rs), 2)
+        m['failed'] = []; seen = set()
+        for r in rs:
+            for f in r['failed']:
+                if (f['cls'], f['name']) not in seen:
+                    seen.add((f['cls'], f['name'])); f = dict(f); f['case'] = r['case']; m['failed'].append(f)
+        m['named_ok'] = sorted(set.intersection(*[set(r['named_ok']) for r in rs])) if all(r['status'] in ('pass', 'fail') for r in rs) else []
+        m['notes'] = ['%d cases' % len(rs)] + sorted(set(n for r in rs for n in r['notes']))[:4]
+        bad = [r for r in rs if r['status'] in ('error', 'timeout')]
+        reach = {}
+        for r in rs:
+            for k, v in (r.get('reach') or {}).items():
+                reach[k] = reach.get(k, False) or v
+        unreached = [k for k, v in reach.items() if not v]
+        if bad:
+            m['status'] = bad[0]['status']
+        elif unreached:
+            m['status'] = 'error'; m['notes'].append('vacuity guard: never reachable in any case: %s' % unreached)
+        else:
+            m['status'] = 'pass' if not m['failed'] else 'fail'
+        fr = [r for r in rs if r['failed']]
+        if fr:
+            m['cb_cmd'] = fr[0].get('cb_cmd'); m['cbmc_bin'] = fr[0].get('cbmc_bin')
+        m['case'] = None
+        out.append(m)
+    return out
 
 def canary(meta, prop_id):
     """reachability canary: the harness' `VERIF_REACH()` cover points must be reachable"""
@@ -335,8 +380,17 @@ def main():
     if not metas:
         print('no harnesses for %s' % prop); sys.exit(2)
     results = []
+    jobs = []
+    for m in metas:
+        if m.get('cases'):
+            for k in (m.get('case_only') or range(int(m['cases']))):
+                mk = dict(m); mk['_case_mode'] = True; mk['_case'] = k
+                mk['cppflags'] = list(m.get('cppflags', [])) + ['-DVERIF_CASE=%d' % k, '-DVERIF_NCASES=%d' % int(m['cases'])]
+                jobs.append(mk)
+        else:
+            jobs.append(m)
     with cf.ThreadPoolExecutor(max_workers=args.jobs) as ex:
-        futs = {ex.submit(run_harness, m, prop, args.keep): m for m in metas}
+        futs = {ex.submit(run_harness, m, prop, args.keep): m for m in jobs}
         for fu in cf.as_completed(futs):
             try:
                 results.append(fu.result())
@@ -344,6 +398,7 @@ def main():
                 m = futs[fu]
                 results.append(dict(harness=m['name'], status='error', obligations=0, discharged=0, failed=[], named_ok=[],
                                     notes=['runner exception: %r' % e], solver_s=0, total_s=0, bounded=m.get('bounded')))
+    results = merge_cases(results)
     results.sort(key=lambda r: r['harness'])
     baseline = load_baseline(prop)
     known = load_known()
@@ -388,7 +443,7 @@ def main():
             '  [bounded %s]' % json.dumps(r['bounded']) if r.get('bounded') else '',
             ('  ' + '; '.join(r['notes'])[:300]) if r['notes'] else ''))
         for f in r['failed'][:8]:
-            print('      FAILED [%s] %s  (%s)' % (f['cls'], f['name'][:120], (f.get('description') or '')[:100]))
+            print('      FAILED [%s] %s  (%s)%s' % (f['cls'], f['name'][:120], (f.get('description') or '')[:100], ('  [case %s]' % f['case']) if f.get('case') is not None else ''))
     if args.show_trace:
         for r in results:
             for f in r['failed'][:4]:
